@@ -243,11 +243,18 @@ func (t *vfTree) apply(op int, k int) {
 
 // prefill builds a concrete shape: n ascending keys 10,20,..., then removal of the listed ones.
 func (t *vfTree) prefill(n int, remove []int) {
+	var keys []int
 	for i := 1; i <= n; i++ {
+		keys = append(keys, i*10)
+	}
+	if n < 0 {
+		keys = vfScrambled // a non-monotone insertion order
+	}
+	for _, k := range keys {
 		id := t.nextID
 		t.nextID++
-		t.b3.Add(i*10, id)
-		t.keyOf[id] = i * 10
+		t.b3.Add(k, id)
+		t.keyOf[id] = k
 		t.live[id] = true
 	}
 	for _, k := range remove {
@@ -270,9 +277,15 @@ var vfShapes = []struct {
 	{6, nil},
 	{7, []int{20, 30}},      // removals that leave nil children / unlinked nodes (slot length 2)
 	{9, []int{10, 50, 90}},
+	{-1, []int{30, 50}}, // nine keys inserted in scrambled order, two removed again
 }
 
-func vfRun(nOps int, shapes int) {
+var vfScrambled = []int{80, 150, 130, 30, 0, 170, 70, 120, 50}
+
+func vfRun(nOps int, shapes int) { vfRunShape(nOps, -shapes) }
+
+// vfRunShape: shape >= 0 selects one shape, shape < 0 lets the engine choose among the first -shape.
+func vfRunShape(nOps int, shape int) {
 	var slot int
 	var unique, lb bool
 	if zzvf.Thorough() {
@@ -293,7 +306,18 @@ func vfRun(nOps int, shapes int) {
 		}
 	}
 	t := vfNewTree(slot, unique, lb)
-	sh := vfShapes[zzvf.Choose("shape", shapes)]
+	var sh struct {
+		n      int
+		remove []int
+	}
+	if shape >= 0 {
+		sh = vfShapes[shape]
+	} else {
+		sh = vfShapes[zzvf.Choose("shape", -shape)]
+	}
+	// KF-C17-1: leaf load balancing, tree built in scrambled order with removals: a later add
+	// rotates an item through a node with a nil child and a phantom zero-key item appears
+	zzvf.Known("KF-C17-1", lb && sh.n < 0)
 	t.prefill(sh.n, sh.remove)
 	t.check("prefill")
 	for i := 0; i < nOps; i++ {
@@ -313,6 +337,12 @@ func VerifC17Ops() {
 	} else {
 		vfRun(2, 4)
 	}
+}
+
+// VerifC17Scrambled: two operations with symbolic keys on a tree built by inserting nine keys
+// in a non-monotone order and removing two of them again.
+func VerifC17Scrambled() {
+	vfRunShape(2, len(vfShapes)-1)
 }
 
 // VerifC17FromEmpty: three (thorough: four) operations from the empty tree.
